@@ -9,7 +9,22 @@ P = 'plsql.go'; F = 'functions.go'; J = 'join.go'; S = 'selector.go'; C = 'compa
 
 # ---- C01
 v('C01', 'ge-becomes-gt', 'c01.cmp-table', (P, 'compare.Compare(leftValue, rightValue) >= 0, nil', 'compare.Compare(leftValue, rightValue) > 0, nil'))
-v('C01', 'filter-keeps-nonmatching', 'c01.filter-loop', (P, 'if !isMatch {', 'if isMatch && false {'))
+v('C01', 'filter-keeps-nonmatching', 'c01.filter-loop', (P, '''				if !isMatch {
+					continue
+				}
+				slice = append(slice, current)''', '''				if isMatch && false {
+					continue
+				}
+				slice = append(slice, current)'''))
+v('C01', 'dual-filter-keeps-nonmatching', 'exec.dual-where', (P, '''				if !isMatch {
+					continue
+				}
+			}
+			from = append(from, current)''', '''				if isMatch && false {
+					continue
+				}
+			}
+			from = append(from, current)'''))
 v('C01', 'between-exclusive-upper', 'c01.between', (P, 'compare.Compare(pointValueRaw, toValue) <= 0', 'compare.Compare(pointValueRaw, toValue) < 0'))
 v('C01', 'or-becomes-and', 'c01.connectives', (P, 'return *leftValue || *rightValue, nil', 'return *leftValue && *rightValue, nil'))
 v('C01', 'like-not-quoted', 'c01.like-escape', (P, 'regExpr := regexp.QuoteMeta(strings.ToLower(pattern))', 'regExpr := strings.ToLower(pattern)'))
